@@ -120,7 +120,7 @@ def build():
         ],
         "checks": checks,
         "not_applicable": na,
-        "notes": "Technique family: deterministic simulation with fault injection. Exit codes of every check: 0 held (KNOWN-FINDING lines possible), 1 VIOLATION with a replay that reproduced in a fresh interpreter, 2 harness error (never a verdict). Known findings: /verif/KNOWN_FINDINGS.jsonl (12 fixed by fix: commits in /repo, 14 known, all C18 by call site). Sensitivity: selftest/run_mutants.py (25 catalogue mutants, 54 seeded changes from independent sub-agents under /verif/seeded, 12 behaviour-preserving refactorings under /verif/benign that must stay quiet). DESIGN.md sections 11-14 describe the code as built.",
+        "notes": "Technique family: deterministic simulation with fault injection. Exit codes of every check: 0 held (KNOWN-FINDING lines possible), 1 VIOLATION with a replay that reproduced in a fresh interpreter, 2 harness error (never a verdict). Known findings: /verif/KNOWN_FINDINGS.jsonl (12 fixed by fix: commits in /repo; 15 known: 14 x C18 by call site, 1 x C12 rare recovery stall with a frequency condition). Sensitivity: selftest/run_mutants.py (25 catalogue mutants, 54 seeded changes from independent sub-agents under /verif/seeded, 12 behaviour-preserving refactorings under /verif/benign that must stay quiet). DESIGN.md sections 11-14 describe the code as built.",
     }
 
 
